@@ -290,7 +290,8 @@ Proof.
       assert (Ha' : forall a, In a args -> List.length a < List.length toks - next).
       { intros a Hin. specialize (Ha a Hin). lia. }
       destruct (Nat.eqb (m_params m) 0).
-      * destruct args as [|[|t0 a0] [|a1 ar]]; try exact Logic.I.
+      * destruct args as [|a0 [|a1 ar]]; try exact Logic.I.
+        destruct (forallb is_ws a0); [|exact Logic.I].
         apply Hstep; [exact Hr' | intros a []].
       * destruct (Nat.eqb (List.length args) (m_params m)); [|exact Logic.I].
         apply Hstep; assumption.
